@@ -22,7 +22,7 @@ from pbt.props import c01
 ID = "C15"
 RULE = ("object graphs from every builder family plus tables with schema chains / temporal clauses / query_cls, Schema, Database, AliasedQuery, "
         "NOT-wrapped delegating calls and Interval, duplicated by copy.copy, copy.deepcopy or a pickle round trip (protocols 2-5), followed by up to 5 "
-        "builder calls on either side. Non-trivial = the graph has a class with dynamic attribute lookup (Selectable, Schema, Database, Not) or a nested "
+        "builder calls on either side; plus every (family, method) pair of every menu called on either side of a fresh duplicate (enumerated), with the object state (not only its renderings) compared. Non-trivial = the graph has a class with dynamic attribute lookup (Selectable, Schema, Database, Not) or a nested "
         "builder, and at least one suffix call; distinct = distinct (graph, mechanism, suffix).")
 ASSUMPTIONS = [
     "copy.copy may share containers with the original as long as no builder call makes the sharing observable",
